@@ -408,6 +408,24 @@ func searchRect(obj geojson.Object) geometry.Rect {
 		center := circle.Center()
 		minLat, minLon, maxLat, maxLon :=
 			geo.RectFromCenter(center.Y, center.X, circle.Meters())
+		// RectFromCenter collapses to the centre for a minuscule radius;
+		// also box the disc conservatively, wrapping at the antimeridian.
+		const degrees = 180 / math.Pi
+		dlat := circle.Meters()/6371e3*degrees*(1+1e-9) + 1e-12
+		lo, hi := center.Y-dlat, center.Y+dlat
+		if lo <= -90 || hi >= 90 {
+			minLon, maxLon = -180, 180
+		} else {
+			dlon := dlat / math.Cos(math.Max(math.Abs(lo), math.Abs(hi))/degrees)
+			if center.X-dlon < -180 || center.X+dlon > 180 {
+				minLon, maxLon = -180, 180
+			} else {
+				minLon = math.Min(minLon, center.X-dlon)
+				maxLon = math.Max(maxLon, center.X+dlon)
+			}
+		}
+		minLat = math.Min(minLat, math.Max(lo, -90))
+		maxLat = math.Max(maxLat, math.Min(hi, 90))
 		rect.Min.X = math.Min(rect.Min.X, minLon)
 		rect.Min.Y = math.Min(rect.Min.Y, minLat)
 		rect.Max.X = math.Max(rect.Max.X, maxLon)
